@@ -345,13 +345,11 @@ fn kind_of_failure(msg: &str) -> String {
     format!("{abi}{op}: {what}")
 }
 
-pub fn main() {
-    let args: Vec<String> = std::env::args().collect();
-    let mode = args.get(1).map(|s| s.as_str()).unwrap_or("native");
-    if mode == "miri" {
-        // a fixed list of histories; any undefined behaviour makes the interpreter abort with a report
-        use Op::*;
-        let hs: Vec<Vec<Op>> = vec![
+/// histories that every run replays (natively, through the exported ABI and under Miri), whatever the sampling of the
+/// enumeration
+fn fixed_histories() -> Vec<Vec<Op>> {
+    use Op::*;
+    vec![
             vec![Initiate("/p/b.graphql"), Emit(1), Free(1)],
             vec![Initiate("/p/a.graphql"), Required(1), Load(1, "/p/frags/f1.graphql"), Required(1), Load(1, "/p/frags/f2.graphql"), Emit(1), Free(1)],
             vec![Initiate("/p/a.graphql"), Load(1, "/p/a.graphql"), Load(1, "/p/frags/f1.graphql"), Load(1, "/p/frags/f1.graphql"), Free(1), Free(1), Emit(1)],
@@ -359,7 +357,19 @@ pub fn main() {
             vec![Initiate("/p/b.graphql"), Initiate("/p/a.graphql")],
             vec![InitiateBad("/p/a.graphql"), Required(1), Emit(1), Initiate("/p/a.graphql"), Emit(1), Emit(2), InitiateBad("/p/b.graphql"), Free(1), Free(2)],
             vec![Initiate("/p/a.graphql"), Load(1, "/p/frags/f1.graphql"), LoadBad(1, "/p/frags/f1.graphql"), Required(1), LoadBad(1, "/p/a.graphql"), Emit(1), Free(1)],
-        ];
+        
+        vec![Initiate("/p/b.graphql"), Emit(1), Free(1), Emit(1), Required(1), Load(1, "/p/a.graphql")],
+        vec![Initiate("/p/a.graphql"), Load(1, "/p/frags/f1.graphql"), Load(1, "/p/frags/f2.graphql"), Emit(1), Initiate("/p/b.graphql"), Emit(2), Free(1), Emit(1), Emit(2), Free(2), Emit(2)],
+        vec![Initiate("/p/a.graphql"), Emit(1), Load(1, "/p/frags/f1.graphql"), Emit(1), Load(1, "/p/frags/f2.graphql"), Emit(1), Emit(1)],
+    ]
+}
+
+pub fn main() {
+    let args: Vec<String> = std::env::args().collect();
+    let mode = args.get(1).map(|s| s.as_str()).unwrap_or("native");
+    if mode == "miri" {
+        // a fixed list of histories; any undefined behaviour makes the interpreter abort with a report
+        let hs: Vec<Vec<Op>> = fixed_histories();
         for slack in [false, true] {
             for h in &hs {
                 if let Err(e) = run_history(h, slack) {
@@ -385,6 +395,21 @@ pub fn main() {
     let mut index = 0usize;
     let mut per_len: BTreeMap<String, usize> = BTreeMap::new();
     let mut samples = vec![];
+    for (k, h) in fixed_histories().iter().enumerate() {
+        if only.is_some() {
+            break;
+        }
+        evaluations += 1;
+        *per_len.entry("fixed histories".to_string()).or_default() += 1;
+        for slack in [false, true] {
+            let r = std::panic::catch_unwind(|| run_history(h, slack).and_then(|_| run_history_abi_thread(h)));
+            match r {
+                Ok(Ok(())) => {}
+                Ok(Err(e)) => failures.push((1_000_000 + k, kind_of_failure(&e), format!("{h:?} (source buffers {} spare capacity)", if slack { "with" } else { "without" }), e, String::new())),
+                Err(_) => failures.push((1_000_000 + k, "a loader call panics".into(), format!("{h:?}"), "panic during a fixed history".to_string(), String::new())),
+            }
+        }
+    }
     // all histories up to maxlen-1; at maxlen (quick: every 7th; thorough length 5: every 23rd), by odometer
     for len in 1..=maxlen {
         let total = alpha.len().pow(len as u32);
